@@ -71,7 +71,7 @@ def run(ctx):
     corpus = [(l, fs) for l, fs in G.CORPUS]
     parsed = G.parse_sets(ctx, [fs for _, fs in corpus])
     cc = [("corpus:" + l, asts, fs) for (l, fs), (asts, why) in zip(corpus, parsed) if asts is not None and not why]
-    progs = G.gen_cases(rng, ctx.budget(30, 2500), ctx.budget(2, 3), small=(ctx.tier != "thorough"))
+    progs = G.gen_cases(rng, ctx.budget(30, 2500), ctx.budget(2, 3), small=(ctx.tier != "thorough"), extended=True)
     texts = G.render_sets(rng, progs)
     allc = cc + [(label, files, t) for (label, files), t in zip(progs, texts)]
     outs = ctx.impl("miniproto", G.compile_inputs([t for _, _, t in allc], [[f["name"] for f in files] for _, files, _ in allc]))
